@@ -424,6 +424,152 @@ def r14_7(ctx: Ctx):
     return obs
 
 
+_CONFIG_HELD_MODULES = ("pyhms.stop_conditions", "pyhms.sprout")
+_MUT_METHODS = ("append", "extend", "insert", "add", "update", "setdefault", "pop", "popitem", "remove", "clear", "discard", "appendleft")
+
+
+def r14_8(ctx: Ctx):
+    """R14.8 nothing a run stores outlives the run: (a) no memoised factory (lru_cache / cache) hands out a stateful generator
+    or sampler object - the second tree of the process would continue the first tree's sequence; (b) the objects a
+    configuration holds and every run made with it shares (stop conditions, sprout generators / filters) do not accumulate
+    state in containers: what the first run stored decides the second; (c) evaluation counters are advanced by every
+    forwarded evaluation, whatever a cache filled by an earlier run answers (R03.1)."""
+    from . import c03
+
+    obs = []
+    # (a) memoised factories of stateful objects
+    n_funcs = 0
+    for f in ctx.prog.all_functions():
+        if f.name == "<module>":
+            continue
+        n_funcs += 1
+        decos = [norm(d.func) if isinstance(d, ast.Call) else norm(d) for d in getattr(f.node, "decorator_list", [])]
+        memo = [d for d in decos if d.split(".")[-1] in ("lru_cache", "cache", "cached_property")]
+        if not memo or memo[0].endswith("cached_property"):
+            continue
+        stateful = None
+        for r in body_walk(f.node):
+            if isinstance(r, ast.Return) and r.value is not None:
+                for c in ast.walk(r.value):
+                    if isinstance(c, ast.Call):
+                        d = ctx.prog.dotted(c.func, f.module) if isinstance(c.func, (ast.Name, ast.Attribute)) else None
+                        if d and any(e[0] == "GENCTOR" for e in classify_external(d)):
+                            stateful = (c, d)
+        if stateful is not None:
+            obs.append(ctx.ob("R14.8", f, stateful[0], status=VIOLATION, detail=f"{f.short} is memoised (`@{memo[0]}`) and returns a generator / sampler object (`{stateful[1]}`): the object is stateful, so a later tree with the same arguments gets the SAME object and continues the sequence where the previous tree left it - the run depends on what ran before in the process", construct=f"memo:{f.short}"))
+        else:
+            obs.append(ctx.ob("R14.8", f, f.node, detail=f"{f.short} is memoised but returns no generator / sampler object", construct=f"memo:{f.short}"))
+    # (b) accumulating containers in configuration-held objects
+    n_cls = 0
+    for ci in ctx.prog.classes.values():
+        if not ci.module.name.startswith(_CONFIG_HELD_MODULES):
+            continue
+        n_cls += 1
+        init = ci.methods.get("__init__")
+        containers = {}
+        if init is not None:
+            isn = init.self_name()
+            for y in body_walk(init.node):
+                if isinstance(y, (ast.Assign, ast.AnnAssign)) and getattr(y, "value", None) is not None:
+                    v = y.value
+                    empty = (isinstance(v, (ast.Dict, ast.List, ast.Set)) and not (getattr(v, "keys", None) or getattr(v, "elts", None))) or (isinstance(v, ast.Call) and norm(v.func).split(".")[-1] in ("dict", "list", "set", "defaultdict", "deque", "OrderedDict", "Counter") and not [a for a in v.args if not isinstance(a, (ast.Name, ast.Attribute, ast.Lambda))])
+                    if empty:
+                        for t in (y.targets if isinstance(y, ast.Assign) else [y.target]):
+                            if is_self_attr(t, None, isn):
+                                containers[t.attr] = y
+        for attr, st in ci.class_attrs.items() if hasattr(ci, "class_attrs") else []:
+            v = getattr(st, "value", None)
+            if isinstance(v, (ast.Dict, ast.List, ast.Set)) and not (getattr(v, "keys", None) or getattr(v, "elts", None)):
+                containers.setdefault(attr, st)
+        hit = None
+        hit_alias = {}
+        for m in ci.methods.values():
+            if m.name == "__init__":
+                continue
+            sn = m.self_name()
+            if sn is None:
+                continue
+            alias = {}
+            for y in body_walk(m.node):
+                if isinstance(y, ast.Assign) and len(y.targets) == 1 and isinstance(y.targets[0], ast.Name):
+                    v = y.value
+                    base = None
+                    if isinstance(v, ast.Call) and isinstance(v.func, ast.Attribute) and v.func.attr in ("setdefault", "get") and is_self_attr(v.func.value, None, sn):
+                        base = v.func.value.attr
+                    elif isinstance(v, ast.Subscript) and is_self_attr(v.value, None, sn):
+                        base = v.value.attr
+                    elif is_self_attr(v, None, sn):
+                        base = v.attr
+                    if base in containers:
+                        alias[y.targets[0].id] = base
+            for x in body_walk(m.node):
+                tgt = None
+                if isinstance(x, ast.Call) and isinstance(x.func, ast.Attribute) and x.func.attr in _MUT_METHODS:
+                    tgt = x.func.value
+                elif isinstance(x, (ast.Assign, ast.AugAssign)):
+                    for t in (x.targets if isinstance(x, ast.Assign) else [x.target]):
+                        if isinstance(t, ast.Subscript):
+                            tgt = t.value
+                        elif isinstance(x, ast.AugAssign) and is_self_attr(t, None, sn) and t.attr in containers:
+                            tgt = t
+                if tgt is None:
+                    continue
+                while isinstance(tgt, ast.Subscript):
+                    tgt = tgt.value
+                a = tgt.attr if is_self_attr(tgt, None, sn) else alias.get(tgt.id) if isinstance(tgt, ast.Name) else None
+                if a in containers and hit is None:
+                    hit = (m, x, a)
+                    hit_alias = dict(alias)
+        if hit is not None:
+            # a container that is only ever added to is a log; it matters when the class also READS it (to decide / return)
+            m, x, a = hit
+            reads = 0
+            for m2 in ci.methods.values():
+                sn2 = m2.self_name()
+                if sn2 is None or m2.name == "__init__":
+                    continue
+                par = None
+                names = {a_ for a_, b_ in hit_alias.items() if b_ == a} if m2 is m else set()
+                from ..core import parents_map
+
+                par = parents_map(m2.node)
+                for y in body_walk(m2.node):
+                    is_ref = (is_self_attr(y, a, sn2) and isinstance(y.ctx, ast.Load)) or (isinstance(y, ast.Name) and y.id in names and isinstance(y.ctx, ast.Load))
+                    if not is_ref:
+                        continue
+                    q = par.get(id(y))
+                    # receiver of a mutating call / target of a store / right side of the alias definition: not a read
+                    if isinstance(q, ast.Attribute) and q.attr in _MUT_METHODS + ("get",) and isinstance(par.get(id(q)), ast.Call) and par.get(id(q)).func is q:
+                        gp = par.get(id(par.get(id(q))))
+                        if isinstance(gp, ast.Expr) or (isinstance(gp, ast.Assign) and q.attr in ("setdefault", "get")):
+                            continue
+                    if isinstance(q, ast.Subscript) and isinstance(q.ctx, ast.Store):
+                        continue
+                    if isinstance(q, ast.Assign) and q.value is y:
+                        continue
+                    reads += 1
+            if reads == 0:
+                obs.append(ctx.ob("R14.8", m, x, detail=f"{ci.name}.{a} is a log: {m.short} adds to it and nothing in the class reads it back", construct=f"{ci.name}.{a}:log"))
+                hit = None
+        if hit is not None:
+            m, x, a = hit
+            obs.append(ctx.ob("R14.8", m, x, status=VIOLATION, detail=f"{ci.name}.{a} starts empty and {m.short} adds to it (`{norm(x)[:70]}`): the object belongs to the configuration and is shared by every run made with it, so what one run stored (per deme id, per call) is still there for the next run with the same seed, which then decides differently", construct=f"{ci.name}.{a}:accumulates"))
+        elif containers and not any(o.construct == f"{ci.name}.{a_}:log" for o in obs for a_ in containers):
+            obs.append(ctx.ob("R14.8", ci, ci.node, detail=f"{ci.name}: container attribute(s) {sorted(containers)} are never added to after construction", construct=f"{ci.name}:containers"))
+    if n_cls < 15:
+        raise AnalysisError(f"only {n_cls} stop-condition / sprout classes scanned")
+    obs.append(ctx.ob("R14.8", None, None, subject="pyhms", loc="-", detail=f"{n_funcs} functions scanned for memoised generator factories, {n_cls} configuration-held classes for accumulating containers", construct="scan"))
+    # (b') module-level containers kept by reference and written through an instance
+    from .c02 import shared_module_state
+
+    obs.extend(shared_module_state(ctx, "R14.8"))
+    # (c) counters
+    for o in c03.r03_1(ctx):
+        o.rule = "R14.8"
+        obs.append(o)
+    return obs
+
+
 RULES = [
     ("R14.1", r14_1, 30),
     ("R14.2", r14_2, 3),
@@ -432,4 +578,5 @@ RULES = [
     ("R14.5", r14_5, 4),
     ("R14.6", r14_6, 1),
     ("R14.7", r14_7, 1),
+    ("R14.8", r14_8, 4),
 ]
